@@ -1050,7 +1050,7 @@ func run(seed uint64, n int, dir string, deepmp int) {
 		dist[k] = v
 	}
 	o.Close(map[string]any{
-		"rule":                "TESTING (fuzzing), not proof: distinct_nontrivial = number of distinct (endpoint, content type, mutation kind, mutated field path, HTTP status) tuples among the requests that reached a handler (status other than the header / routing refusals); evaluations = HTTP requests judged by the oracle O1-O5 plus pure op lines compared with the model",
+		"rule":                "TESTING (fuzzing), not proof: distinct_nontrivial = number of distinct (endpoint, content type, mutation kind, mutated field path, HTTP status) tuples among the requests that reached a handler (status other than the header / routing refusals); evaluations = HTTP requests judged by the oracle O1-O6 plus pure op lines compared with the model",
 		"distribution":        dist,
 		"distinct_nontrivial": len(rn.distinct),
 		"evaluations":         rn.judged + o.N,
